@@ -361,6 +361,9 @@ extern "C" ssize_t simk_recvmsg(int fd, struct msghdr *m, int fl)
 				if (c->cmsg_level == SOL_SOCKET && c->cmsg_type == SCM_CREDENTIALS) {
 					struct ucred u;
 					memcpy(&u, CMSG_DATA(c), sizeof u);
+					// only credentials the kernel really attached are translated: data sent while neither end had asked
+					// for credentials arrives as pid 0 / overflow ids, and must keep arriving like that
+					if (u.pid != getpid()) continue;
 					u.pid = pp->spid; u.uid = pp->uid; u.gid = pp->gid;
 					memcpy(CMSG_DATA(c), &u, sizeof u);
 				}
